@@ -167,3 +167,10 @@ def run(ck):
     for cs in atomics(rn, "stop", ("load", "store", "swap")) + atomics(bo, "future_ready", ("load", "store", "swap")):
         ords = [sorted(T.agg_variant(cs.body, a)) for a in cs.args[1:] if T.agg_variant(cs.body, a) and any("Ordering" in str(v[0]) for v in T.agg_variant(cs.body, a))]
         ck.info("4", "T9-recorded", cs.body, "ordering:%s(%s)" % (cs.name, "stop" if T.path_has(cs.body, cs.args[0], ".stop") else "future_ready"), "memory ordering %s (recorded, not armed)" % ords, site=cs.body.where(cs.bb))
+    # ---- shared clauses demonstrated by seeding round 7 (the property broken from a distant module) --------------
+    from props import common as _c7
+    import importlib as _il
+    _m = lambda n: _il.import_module('props.' + n)
+    _c7.import_results(ck, _m("C03"), "3", "PingSource", "4")  # one drain per event: a self-pinging callback cannot keep the loop inside process_events
+    _c7.import_results(ck, _m("C14"), "1", None, "4")  # each lifecycle source is listed once (a hook taking a lock is not entered twice)
+
